@@ -1,0 +1,136 @@
+//go:build verif
+
+package main
+
+// Verification hook (build tag "verif" only). When ZLINT_VERIF_GTLD_DRIVER is
+// set the program does not update anything: it reads one operation per line
+// from standard input, runs the generator's own functions on it (the network
+// replaced by an in-memory transport) and prints one result line per
+// operation, so that an external harness can compare the generator with a
+// model of it.
+//
+//	val  <entries>            validateGTLDs            -> ok | err
+//	del  <entries>            delegatedGTLDs           -> entries kept
+//	gen  <entries> <tlds>     renderGTLDMap            -> err | rendered rows
+//
+// <entries> is a comma separated list of name|delegation|removal, <tlds> a
+// comma separated list of lines of the TLD list; every field is hex encoded
+// and "-" stands for an empty list.
+
+import (
+	"bufio"
+	"bytes"
+	"encoding/hex"
+	"encoding/json"
+	"fmt"
+	"io"
+	"net/http"
+	"os"
+	"regexp"
+	"sort"
+	"strings"
+
+	"github.com/zmap/zlint/v3/util"
+)
+
+type verifTransport struct {
+	gtlds, tlds []byte
+}
+
+func (t *verifTransport) RoundTrip(req *http.Request) (*http.Response, error) {
+	body := t.tlds
+	if req.URL.String() == ICANN_GTLD_JSON {
+		body = t.gtlds
+	}
+	return &http.Response{StatusCode: http.StatusOK, Body: io.NopCloser(bytes.NewReader(body)), Header: http.Header{}, Request: req}, nil
+}
+
+func verifUnhex(s string) string {
+	b, err := hex.DecodeString(s)
+	if err != nil {
+		panic(err)
+	}
+	return string(b)
+}
+
+func verifEntries(s string) []util.GTLDPeriod {
+	var out []util.GTLDPeriod
+	if s == "-" {
+		return out
+	}
+	for _, e := range strings.Split(s, ",") {
+		f := strings.Split(e, "|")
+		out = append(out, util.GTLDPeriod{GTLD: verifUnhex(f[0]), DelegationDate: verifUnhex(f[1]), RemovalDate: verifUnhex(f[2])})
+	}
+	return out
+}
+
+func verifShow(es []util.GTLDPeriod) string {
+	if len(es) == 0 {
+		return "-"
+	}
+	var parts []string
+	for _, e := range es {
+		parts = append(parts, hex.EncodeToString([]byte(e.GTLD))+"|"+hex.EncodeToString([]byte(e.DelegationDate))+"|"+hex.EncodeToString([]byte(e.RemovalDate)))
+	}
+	return strings.Join(parts, ",")
+}
+
+var verifRow = regexp.MustCompile(`"([^"]*)":\s*\{\s*GTLD:\s*"([^"]*)",\s*DelegationDate:\s*"([^"]*)",\s*RemovalDate:\s*"([^"]*)",\s*\}`)
+
+func verifOp(line string) (res string) {
+	defer func() {
+		if r := recover(); r != nil {
+			res = fmt.Sprintf("panic %v", r)
+		}
+	}()
+	f := strings.Split(line, "\t")
+	switch f[0] {
+	case "val":
+		if err := validateGTLDs(verifEntries(f[1])); err != nil {
+			return "err"
+		}
+		return "ok"
+	case "del":
+		return verifShow(delegatedGTLDs(verifEntries(f[1])))
+	case "gen":
+		feed, _ := json.Marshal(struct{ GTLDs []util.GTLDPeriod }{verifEntries(f[1])})
+		var lines []string
+		if f[2] != "-" {
+			for _, l := range strings.Split(f[2], ",") {
+				lines = append(lines, verifUnhex(l))
+			}
+		}
+		httpClient.Transport = &verifTransport{gtlds: feed, tlds: []byte(strings.Join(lines, "\n"))}
+		var buf bytes.Buffer
+		if err := renderGTLDMap(&buf); err != nil {
+			return "err"
+		}
+		var rows []util.GTLDPeriod
+		keyed := true
+		for _, m := range verifRow.FindAllStringSubmatch(buf.String(), -1) {
+			keyed = keyed && m[1] == m[2]
+			rows = append(rows, util.GTLDPeriod{GTLD: m[2], DelegationDate: m[3], RemovalDate: m[4]})
+		}
+		sort.SliceStable(rows, func(i, j int) bool { return rows[i].GTLD < rows[j].GTLD })
+		if !keyed {
+			return "rows-not-keyed-by-own-name " + verifShow(rows)
+		}
+		return verifShow(rows)
+	}
+	return "bad-op"
+}
+
+func init() {
+	if os.Getenv("ZLINT_VERIF_GTLD_DRIVER") == "" {
+		return
+	}
+	in := bufio.NewScanner(os.Stdin)
+	in.Buffer(make([]byte, 1<<20), 1<<26)
+	out := bufio.NewWriter(os.Stdout)
+	for in.Scan() {
+		fmt.Fprintln(out, verifOp(in.Text()))
+	}
+	out.Flush()
+	os.Exit(0)
+}
